@@ -22,6 +22,7 @@ import (
 
 	"verif/core"
 	"verif/gjs"
+	"verif/props/witness"
 	"verif/reg"
 	"verif/tlcx"
 )
@@ -579,4 +580,6 @@ func Run(c *core.Ctx, pool *gjs.Pool) {
 		i++
 	}
 	_ = os.Remove
+	witness.Run(c, pool, witnesses)
+	c.Phase("witnesses")
 }
